@@ -377,4 +377,127 @@ Section S.
       + eapply J_core; [apply sc_in_ts|reflexivity|exact J1].
       + eapply nd_eq_log; [|apply (nd_trans _ _ _ 0 1 N0' N1)]. up. reflexivity.
   Qed.
+
+  (* ---------------------------------------------------------------- one call of a history *)
+  Definition call_ok (k : call) : Prop :=
+    match k with
+    | CTrace ei args => exists e cv sv pv, nth_error (d_erts d) ei = Some e /\ args_ok d e args cv sv pv
+    | _ => True
+    end.
+  (* C02's conclusion, used as a premise here: the position is inside the packet when the platform
+     closes it (known findings S9 / S18 are the histories where the generated code breaks this) *)
+  Definition inb (w : world) : Prop := c_open (w_c w) = true -> c_at (w_c w) <= c_psize (w_c w).
+
+  (* the records call k adds to what a reader finds (dl), and its discards *)
+  Definition call_out (w : world) (k : call) (dl : list rcd) : Prop :=
+    let w' := step d w k in
+    match k with
+    | CTrace ei args =>
+        exists e cv sv pv, nth_error (d_erts d) ei = Some e /\ args_ok d e args cv sv pv /\
+          if c_enabled (w_c (trace_entry d w))
+          then (dl = [rec_spec d e (c_last_ts (w_c (trace_entry d w))) cv sv pv] /\ nd w w' 0) \/
+               (dl = [] /\ nd w w' 1)
+          else dl = [] /\ nd w w' 0
+    | _ => dl = [] /\ nd w w' 0
+    end.
+
+  Lemma J_ret R w : J R w -> J R (logev w (ERet (w_c w))).
+  Proof. intros H. eapply J_core; [apply sc_logev; reflexivity|reflexivity|exact H]. Qed.
+  Lemma nd_ret w0 w k : nd w0 w k -> nd w0 (logev w (ERet (w_c w))) k.
+  Proof.
+    intros H. replace k with (k + 0) by lia. eapply nd_trans; [exact H|]. apply nd_logev. discriminate.
+  Qed.
+
+  Theorem step_J R w k : J R w -> call_ok k -> inb w -> w_err (step d w k) = false ->
+    exists dl, call_out w k dl /\ J (R ++ dl) (step d w k).
+  Proof.
+    intros HJ Hk Hb He. unfold call_out. cbv zeta. unfold step in *.
+    destruct (w_err w) eqn:E0; [congruence|].
+    destruct k as [ei args| | |b|].
+    - destruct Hk as (e & cv & sv & pv & Hn & Hargs). rewrite Hn in *.
+      destruct (w_err (trace_fn d e args w)) eqn:E1; [congruence|].
+      pose proof (trace_J R w e args cv sv pv HJ (nth_error_In _ _ Hn) Hargs E1) as T. cbv zeta in T.
+      destruct (c_enabled (w_c (trace_entry d w))).
+      + destruct T as [[T1 T2]|[T1 T2]].
+        * eexists. split; [exists e, cv, sv, pv; split; [reflexivity|split; [exact Hargs|left; split; [reflexivity|apply nd_ret; exact T2]]]|].
+          apply J_ret. exact T1.
+        * exists []. split; [exists e, cv, sv, pv; split; [reflexivity|split; [exact Hargs|right; split; [reflexivity|apply nd_ret; exact T2]]]|].
+          rewrite app_nil_r. apply J_ret. exact T1.
+      + destruct T as [T1 T2].
+        exists []. split; [exists e, cv, sv, pv; split; [reflexivity|split; [exact Hargs|split; [reflexivity|apply nd_ret; exact T2]]]|].
+        rewrite app_nil_r. apply J_ret. exact T1.
+    - exists []. rewrite app_nil_r.
+      destruct (w_err (open_cb d w)) eqn:E1; [congruence|].
+      split; [split; [reflexivity|apply nd_ret, nd_open_cb]|]. apply J_ret. apply (open_cb_J R w HJ).
+    - exists []. rewrite app_nil_r.
+      destruct (w_err (close_cb d w)) eqn:E1; [congruence|].
+      split; [split; [reflexivity|apply nd_ret, nd_close_cb]|]. apply J_ret. apply close_cb_J; [exact HJ|].
+      intros _. exact Hb.
+    - exists []. rewrite app_nil_r. cbn [w_err set_c] in *. rewrite E0 in *.
+      split; [split; [reflexivity|apply nd_ret; eapply nd_eq_log; [|apply nd_refl]; reflexivity]|].
+      apply J_ret. eapply J_core; [apply sc_enabled|reflexivity|exact HJ].
+    - exists []. rewrite app_nil_r.
+      destruct (c_open (w_c w) && negb (c_at (w_c w) <=? c_off_content (w_c w))).
+      + destruct (w_err (close_cb d w)) eqn:E1; [congruence|].
+        split; [split; [reflexivity|apply nd_ret, nd_close_cb]|]. apply J_ret. apply close_cb_J; [exact HJ|].
+        intros _. exact Hb.
+      + rewrite E0 in *. split; [split; [reflexivity|apply nd_ret, nd_refl]|]. apply J_ret. exact HJ.
+  Qed.
+
+  (* ---------------------------------------------------------------- whole histories *)
+  Fixpoint outs (w : world) (h : list call) (ds : list (list rcd)) : Prop :=
+    match h, ds with
+    | [], [] => True
+    | k :: h, dl :: ds => call_out w k dl /\ outs (step d w k) h ds
+    | _, _ => False
+    end.
+  Fixpoint inb_run (w : world) (h : list call) : Prop :=
+    match h with [] => True | k :: h => inb w /\ inb_run (step d w k) h end.
+
+  Lemma fold_sticky h : forall w, w_err w = true -> w_err (fold_left (step d) h w) = true.
+  Proof. induction h as [|k h IH]; intros w H; cbn [fold_left]; [exact H|]. apply IH. apply sticky_step. exact H. Qed.
+
+  Theorem history_J h : forall w R, J R w -> Forall call_ok h -> inb_run w h ->
+    w_err (fold_left (step d) h w) = false ->
+    exists ds, outs w h ds /\ J (R ++ List.concat ds) (fold_left (step d) h w).
+  Proof.
+    induction h as [|k h IH]; intros w R HJ Hok Hb He; cbn [fold_left] in *.
+    - exists []. cbn. rewrite app_nil_r. auto.
+    - inversion Hok as [|? ? Hk Hh]; subst. destruct Hb as [Hb1 Hb2].
+      assert (E1 : w_err (step d w k) = false).
+      { destruct (w_err (step d w k)) eqn:X; [|reflexivity]. rewrite (fold_sticky h _ X) in He. discriminate. }
+      destruct (step_J R w k HJ Hk Hb1 E1) as (dl & C & J1).
+      destruct (IH (step d w k) (R ++ dl) J1 Hh Hb2 He) as (ds & O & J2).
+      exists (dl :: ds). split; [split; assumption|]. cbn [List.concat]. rewrite app_assoc. exact J2.
+  Qed.
+
+  (* ---------------------------------------------------------------- the first packet *)
+  Lemma init_HIb buf oracle : fits cs_size (8 * buf) -> or_ok cs_size oracle ->
+    HIb d user cs_size (mk_w (init_ctx buf) oracle 0%Z [] false user) [].
+  Proof.
+    intros Hf Ho. unfold HIb, len_ok, init_ctx. prj. repeat split; auto.
+    - unfold zeros. apply repeat_length.
+    - exists buf. reflexivity.
+    - constructor.
+    - unfold seqn. destruct (has_member _ _); reflexivity.
+  Qed.
+
+  Lemma first_open_J w : HIb d user cs_size w [] -> c_open (w_c w) = false ->
+    w_err (open_cb d w) = false -> c_open (w_c (open_cb d w)) = true -> J [] (open_cb d w).
+  Proof.
+    intros Hb Hop He Ho. right. exists [], []. split; [|reflexivity].
+    rewrite open_cb_eq, open_fn_eq in *.
+    set (f := has_member (d_pc d) "timestamp_begin") in *.
+    set (w1 := cb_enter 1 w) in *.
+    set (ts := fst (preamble_ts d w1 f)) in *.
+    set (w2 := snd (preamble_ts d w1 f)) in *.
+    assert (SC : same_core w w2) by (eapply same_core_trans; [apply sc_enter|apply sc_preamble]).
+    pose proof (HIb_core d user cs_size _ _ _ SC Hb) as Hb2.
+    destruct SC as (_ & _ & _ & _ & _ & _ & S7 & _).
+    unfold open_core in *.
+    destruct (negb (c_enabled (w_c w2)) && negb (c_in_ts (w_c w2))).
+    - cbn [w_c set_c set_in_ts c_open] in Ho. congruence.
+    - destruct (c_open (w_c w2)) eqn:X; [congruence|].
+      destruct (open_do_HI d user cs_size WF w2 ts [] Hb2 He) as (H & _). exact H.
+  Qed.
 End S.
